@@ -264,6 +264,26 @@ impl Drop for Msg {
     }
 }
 
+/// C09 capacity bound under threads: a send that returned Ok was buffered or taken, so
+/// (#sends that returned Ok) - (#receives invoked so far) <= capacity at every instant.
+#[derive(Default)]
+struct CapBound {
+    ok_returned: AtomicU64,
+    recv_invoked: AtomicU64,
+}
+impl CapBound {
+    fn send_ok(&self, cap: usize) {
+        let ok = self.ok_returned.fetch_add(1, SeqCst) + 1;
+        let rv = self.recv_invoked.load(SeqCst);
+        if ok > rv + cap as u64 {
+            violation("C09", "capacity-exceeded", format!("{} sends have completed successfully but only {} receives were even started: more than the capacity {} is accepted and unreceived", ok, rv, cap));
+        }
+    }
+    fn recv_start(&self) {
+        self.recv_invoked.fetch_add(1, SeqCst);
+    }
+}
+
 fn consume(led: &Led, who: usize, last: &mut Vec<i64>, m: Msg) {
     led.lock().unwrap().received[m.id] += 1;
     let p = m.producer as usize;
@@ -302,23 +322,29 @@ fn t_chan(cfg: &Cfg) {
     let chan = Arc::new(GenericChannel::<M, Msg, GrowingHeapBuf<Msg>>::with_capacity(cap));
     let led: Led = Arc::new(StdMutex::new(Ledger::default()));
     let live = Arc::new(AtomicUsize::new(np));
+    let bound = Arc::new(CapBound::default());
     let mut hs = Vec::new();
     for p in 0..np {
-        let (chan, led, live) = (chan.clone(), led.clone(), live.clone());
+        let (chan, led, live, bound) = (chan.clone(), led.clone(), live.clone(), bound.clone());
         hs.push(thread::spawn(move || {
             for s in 0..items {
                 let m = Msg::new(&led, p as u32, s as u32);
                 let id = m.id;
                 if cap > 0 && draw(100) < 25 {
                     match chan.try_send(m) {
-                        Ok(()) => led.lock().unwrap().sent_ok[id] = true,
+                        Ok(()) => {
+                            bound.send_ok(cap);
+                            led.lock().unwrap().sent_ok[id] = true
+                        }
                         Err(e) => {
                             if block_on(chan.send(e.into_inner())).is_ok() {
+                                bound.send_ok(cap);
                                 led.lock().unwrap().sent_ok[id] = true;
                             }
                         }
                     }
                 } else if block_on(chan.send(m)).is_ok() {
+                    bound.send_ok(cap);
                     led.lock().unwrap().sent_ok[id] = true;
                 }
             }
@@ -329,12 +355,13 @@ fn t_chan(cfg: &Cfg) {
         }));
     }
     for c in 0..nc {
-        let (chan, led) = (chan.clone(), led.clone());
+        let (chan, led, bound) = (chan.clone(), led.clone(), bound.clone());
         hs.push(thread::spawn(move || {
             let mut last: Vec<i64> = Vec::new();
             let mut abandons = 3;
             loop {
                 let budget = if abandons > 0 && draw(100) < p_budget { Some(draw(4) as u32) } else { None };
+                bound.recv_start();
                 let got = match budget {
                     // a consumer that abandons a pending receive (finitely often)
                     Some(b) => match block_on(budgeted(chan.receive(), b)) {
@@ -395,9 +422,10 @@ fn t_chan_shared(cfg: &Cfg) {
     let obs = tx.verif_observer();
     let led: Led = Arc::new(StdMutex::new(Ledger::default()));
     let producers_done = Arc::new(AtomicUsize::new(0));
+    let bound = Arc::new(CapBound::default());
     let mut hs = Vec::new();
     for p in 0..np {
-        let (tx, led, done) = (tx.clone(), led.clone(), producers_done.clone());
+        let (tx, led, done, bound) = (tx.clone(), led.clone(), producers_done.clone(), bound.clone());
         hs.push(thread::spawn(move || {
             // handle churn: clone and drop racing with the other threads
             let tx = if draw(2) == 0 {
@@ -411,7 +439,10 @@ fn t_chan_shared(cfg: &Cfg) {
                 let m = Msg::new(&led, p as u32, s as u32);
                 let id = m.id;
                 match block_on(tx.send(m)) {
-                    Ok(()) => led.lock().unwrap().sent_ok[id] = true,
+                    Ok(()) => {
+                        bound.send_ok(cap);
+                        led.lock().unwrap().sent_ok[id] = true
+                    }
                     // this thread holds a sender and the main thread holds a receiver
                     Err(_) => violation("C11", "closed-while-handles-alive", format!("producer {}: send failed although a sender handle and a receiver handle are alive", p)),
                 }
@@ -423,7 +454,7 @@ fn t_chan_shared(cfg: &Cfg) {
     drop(tx);
     let mut chs = Vec::new();
     for c in 0..nc {
-        let (rx, led) = (rx.clone(), led.clone());
+        let (rx, led, bound) = (rx.clone(), led.clone(), bound.clone());
         chs.push(thread::spawn(move || {
             let rx = if draw(2) == 0 {
                 let r2 = rx.clone();
@@ -436,6 +467,7 @@ fn t_chan_shared(cfg: &Cfg) {
             let mut abandons = 3;
             loop {
                 let budget = if abandons > 0 && draw(100) < p_budget { Some(draw(4) as u32) } else { None };
+                bound.recv_start();
                 let got = match budget {
                     Some(b) => match block_on(budgeted(rx.receive(), b)) {
                         Some(v) => v,
@@ -641,7 +673,76 @@ fn cfg_event(rng: &mut Rng) -> Cfg {
 
 // ================================================================ T-oneshot (shared broadcast: receiver clones come and go)
 
+/// borrowed oneshot / oneshot-broadcast: two senders race, several receivers wait
+fn t_oneshot_borrowed(cfg: &Cfg) {
+    use futures_intrusive::channel::{GenericOneshotBroadcastChannel, GenericOneshotChannel};
+    let n = cfg_get(cfg, "threads", 2) as usize;
+    let broadcast = cfg_get(cfg, "mode", 0) == 2;
+    let one = Arc::new(GenericOneshotChannel::<M, u32>::new());
+    let bc = Arc::new(GenericOneshotBroadcastChannel::<M, u32>::new());
+    let oks = Arc::new(AtomicUsize::new(0));
+    let winner = Arc::new(AtomicU64::new(0));
+    let somes = Arc::new(AtomicUsize::new(0));
+    let nones = Arc::new(AtomicUsize::new(0));
+    let mut hs = Vec::new();
+    for t in 1..=2u32 {
+        let (one, bc, oks, winner) = (one.clone(), bc.clone(), oks.clone(), winner.clone());
+        hs.push(thread::spawn(move || {
+            if draw(2) == 0 {
+                thread::yield_now();
+            }
+            let r = if broadcast { bc.send(t) } else { one.send(t) };
+            match r {
+                Ok(()) => {
+                    oks.fetch_add(1, SeqCst);
+                    winner.store(t as u64, SeqCst);
+                }
+                Err(e) => {
+                    if e.0 != t {
+                        violation("C12", "wrong-value-handed-back", format!("sender {} got value {} back", t, e.0));
+                    }
+                }
+            }
+        }));
+    }
+    for i in 0..n {
+        let (one, bc, somes, nones) = (one.clone(), bc.clone(), somes.clone(), nones.clone());
+        hs.push(thread::spawn(move || {
+            let v = if broadcast { block_on(bc.receive()) } else { block_on(one.receive()) };
+            match v {
+                Some(x) if x == 1 || x == 2 => {
+                    somes.fetch_add(1, SeqCst);
+                }
+                Some(x) => violation("C12", "wrong-value", format!("receiver {} got {}", i, x)),
+                None => {
+                    nones.fetch_add(1, SeqCst);
+                }
+            }
+        }));
+    }
+    for h in hs {
+        h.join().unwrap();
+    }
+    if oks.load(SeqCst) != 1 {
+        violation("C12", "first-send-only", format!("two senders raced on an open oneshot channel and {} sends succeeded (exactly one must)", oks.load(SeqCst)));
+    }
+    if broadcast && nones.load(SeqCst) > 0 {
+        violation("C12", "broadcast-missed", format!("a value was sent but {} receiver(s) got None", nones.load(SeqCst)));
+    }
+    if !broadcast && somes.load(SeqCst) != 1 {
+        violation("C12", "single-delivery", format!("a value was sent and {} receiver(s) got it (exactly one expected)", somes.load(SeqCst)));
+    }
+    if broadcast {
+        queues_must_be_empty("oneshot broadcast channel", bc.verif_snapshot(&mut |_| false));
+    } else {
+        queues_must_be_empty("oneshot channel", one.verif_snapshot(&mut |_| false));
+    }
+}
+
 fn t_oneshot(cfg: &Cfg) {
+    if cfg_get(cfg, "mode", 0) != 0 {
+        return t_oneshot_borrowed(cfg);
+    }
     let n = cfg_get(cfg, "threads", 2) as usize;
     let (tx, rx) = sh::generic_oneshot_broadcast_channel::<M, u32>();
     let obs = tx.verif_observer();
@@ -688,6 +789,8 @@ fn t_oneshot(cfg: &Cfg) {
 fn cfg_oneshot(rng: &mut Rng) -> Cfg {
     let mut c = Cfg::new();
     base_cfg(rng, &mut c);
+    // 0 = shared broadcast with receiver churn, 1 = borrowed single-consumer, 2 = borrowed broadcast
+    c.insert("mode".into(), rng.below(3) as i64);
     c
 }
 
@@ -747,6 +850,14 @@ fn t_state(cfg: &Cfg) {
     // publisher first, then the last sender handle goes away: the channel closes, followers finish
     let publisher = hs.pop().unwrap();
     publisher.join().unwrap();
+    // what the channel itself says the latest state is
+    if let Some((_, v)) = rx.try_receive(StateId::new()) {
+        if v != last_pub.load(SeqCst) {
+            violation("C13", "not-latest-state", format!("try_receive yields state {} but the last published state is {}", v, last_pub.load(SeqCst)));
+        }
+    } else if pubs > 0 {
+        violation("C13", "latest-not-delivered", "try_receive(StateId::new()) yields nothing although states were published".into());
+    }
     drop(tx);
     for f in fs {
         f.join().unwrap();
